@@ -47,6 +47,8 @@ def generate(rng, tier):
     cases = []
     for i in range(n):
         m = rng.choice([1, 2, 3, rng.randint(1, 40)])
+        if i % 20 == 13:
+            m = 0        # a curve with no point at all: header "0", comment line, no rows
         x = [value(rng) for _ in range(m)]
         y = [value(rng) for _ in range(m)]
         if i % 10 == 0:
@@ -97,7 +99,10 @@ def run_impl(pystog, case):
         expect = fname or default.format(stem=case["stem"])
         files = sorted(os.path.relpath(os.path.join(dp, f), ".") for dp, _, fs in os.walk(".") for f in fs)
         text = open(expect, "rb").read() if os.path.exists(expect) else b""
-        rx, ry = np.loadtxt(expect, skiprows=2, comments="#", unpack=True, ndmin=2) if text else (np.array([]), np.array([]))
+        if text and len(case["x"]) == 0 and text.count(b"\n") <= 2:
+            rx, ry = np.array([]), np.array([])       # only the two header lines: nothing to parse
+        else:
+            rx, ry = np.loadtxt(expect, skiprows=2, comments="#", unpack=True, ndmin=2) if text else (np.array([]), np.array([]))
         return {"x": case["x"], "y": case["y"], "bytes": list(text), "files": files, "expect": expect, "rx": np.asarray(rx, float).tolist(), "ry": np.asarray(ry, float).tolist()}
     finally:
         os.chdir(cwd)
@@ -105,7 +110,7 @@ def run_impl(pystog, case):
 
 
 def to_coq(case, res):
-    if "exception" in res or not res.get("bytes"):
+    if "exception" in res or not res.get("bytes") or len(res.get("x", [])) == 0:      # (an empty curve: header only, decided by the oracle)
         return None
     return ([res["x"], res["y"], res["rx"], res["ry"]], [], res["bytes"], [])
 
